@@ -259,8 +259,18 @@ package panos
 //vc:  ensures result == c.Devices.Entries[0].Hostname
 
 // diffRules: the rule name in `where=before&dst=` goes into a URL like every other name (structural guard)
+// panLastDelHigh: index behind the last range of device rules that is deleted
+// (-1: none yet). A run of new rules is anchored in front of the first device
+// rule at or behind its position that is not being deleted (in the script the
+// deletes of that range precede the insert); new rules are created with `set`
+// (appended) and then moved in front of the anchor, in their order.
+//vc:ghost var panLastDelHigh int
 //vc:func (*rulesPair).diffRules
 //vc:  assert[C03] at "url.QueryEscape(aName)" @moveDestinationEscaped true
+//vc:  init panLastDelHigh = 0 - 1
+//vc:  assign after "if r.IsDelete() {" panLastDelHigh = ite(callresult, r.HighA, panLastDelHigh)
+//vc:  invariant[C03] 1 "for _, r := range s.Ranges" @deleteCursorFollowsRanges delIdx == panLastDelHigh
+//vc:  assert[C03] at "url.QueryEscape(aName)" @anchorIsNextSurvivingDeviceRule aPos == ite(r.LowA >= panLastDelHigh, r.LowA, panLastDelHigh) && aPos < len(aRules) && arg0 == aRules[aPos].Name
 
 // ---- C08 / C03: order of the PAN-OS script of one vsys ----
 // First the objects the new rules need are created (transferNeededObjects),
